@@ -49,6 +49,10 @@ ASSUMPTIONS = [
     'the value of a port is compared only when it has no expression and its transforms are inverse to each other at that value '
     '(otherwise no write reproduces it); pending_value, uptime, date, cpu/mem usage and the password indicators are volatile',
     'no write is pending and no sequence runs on the source when the backup is taken',
+    'acceptance theorems: the source hub passes the boolean test `acceptable r E s1 s2` for some rank function r (attribute '
+    'values in their domains, self-referring transforms, valid virtual port definitions, references go down in rank, virtual port '
+    'count within the target\'s limit, backup support on); slave entries are not both polling and listening (NOT guaranteed by the '
+    'unrepaired patch_slave_device: fixes/C20-slave-listening-and-polling.diff)',
 ]
 
 WORKERS = 4
@@ -193,6 +197,11 @@ def gen_config(rng, hardware, vpool, slave_pool, periph_pool, rich=True):
               and not seen.add((s['scheme'], s['host'], s['port'], s['path']))]
     if slaves:
         ops.append(['put_slaves', slaves])
+        # later changes of one property at a time (PATCH /devices/<name>), as a user would make them
+        for sl in slaves:
+            if rng.random() < 0.35:
+                for k in rng.sample(['poll_interval', 'listen_enabled'], rng.randint(1, 2)):
+                    ops.append(['patch_slave', sl['name'], {k: rng.choice([0, 10, 60]) if k == 'poll_interval' else rng.random() < 0.7}])
     for name in rng.sample(periph_pool, rng.choice([0, 0, 1, 2])):
         par = {'driver': MOCK_DRIVER, 'dummy_param': rstr(rng)}
         if name is not None:
@@ -523,7 +532,9 @@ def oracle(job, res):
             if canon_list(res['src'][name]) != canon_list(res['after'][name]):
                 out.append(({'document': name, 'aspect': 'round-trip'}, 'GET /%s differs after the restore' % name))
         elif o[0] != 'ok' and name not in mutated:
-            out.append(({'document': name, 'aspect': 'valid-backup-rejected'}, 'PUT /%s rejected an unaltered backup: %s' % (name, json.dumps(o[1:]))))
+            out.append(({'document': name, 'aspect': 'valid-backup-rejected', 'error': o[2] if o[0] == 'api' else o[1]},
+                        'PUT /%s rejected an unaltered backup: %s (devices left: %s)' % (
+                            name, json.dumps(o[1:]), [e.get('name') for e in res['after'].get('devices', []) if isinstance(e, dict)])))
     return out
 
 
@@ -914,8 +925,12 @@ LEVEL_TEXT = (
     'from the definition fields, set_port_attrs with schema and step validation, loop detection, background value write, '
     'try/finally around the flags, errors wrapped with the port id), get/put_device, get/put_slave_devices and '
     'get/put_peripherals: for every configuration pair on the same hardware and every document order, a restore that is '
-    'accepted yields documents equal to the backup except for the volatile fields (acceptance itself is checked by the '
-    'correspondence and the oracle, not proved); after put_ports polling and event delivery are enabled on '
+    'accepted yields documents equal to the backup except for the volatile fields; an unaltered backup IS accepted (so the round '
+    'trip holds unconditionally) when the source\'s attribute values lie in their domains, its transforms refer to their own port, '
+    'its virtual ports have valid definitions, its dependency graph has a topological order (no loop) and the target may hold that '
+    'many virtual ports - proved via the soundness of the loop check on the partially restored graph; likewise for /device, '
+    '/devices (entries well-formed, not both polling and listening, endpoints distinct) and /peripherals (drivers loadable, ids '
+    'distinct); after put_ports polling and event delivery are enabled on '
     'every path for every document; a rejection carries the id of an entry of the document. The model is compared with the real '
     'functions on generated configuration pairs (error, flags, documents after the restore), and the real functions with the '
     'specification oracle.'
@@ -923,6 +938,9 @@ LEVEL_TEXT = (
 LEVEL_NOTE = (
     'Trusted: Coq kernel incl. vm_compute; the correspondence harness (worker process, teardown between configurations, harness '
     'port drivers, settle loop); expression parsing/printing and transform evaluation enter the model as tables filled by the real '
-    'code; jsonschema and asyncio task order are modelled, not verified; slaves only as disabled devices. No axioms.'
+    'code; jsonschema and asyncio task order are modelled, not verified; slaves only as disabled devices. The acceptance theorems '
+    'have boolean premises on the source hub (shown to hold for the example hubs by vm_compute); that reachable hubs satisfy them '
+    'rests on the API validating what it stores (C04 for the absence of loops) and is probed by the oracle: an unaltered backup '
+    'that is refused for any reason other than the virtual-port limit is a violation. No axioms.'
 )
 TECHNIQUE = 'Coq proof (induction over the document entries) over a model tied by vm_compute correspondence on configuration pairs'
